@@ -63,9 +63,9 @@ while IFS= read -r -u 3 header; do
     rc=$?
     printf 'R %s %s\n' "$rc" "${#COMPREPLY[@]}"
     for r in "${COMPREPLY[@]}"; do printf '%s\n' "$r"; done
-    nl=$(wc -l < "$PROBE_LOG")
-    printf 'L %s\n' "$nl"
-    cat "$PROBE_LOG"
+    mapfile -t __loglines < "$PROBE_LOG"
+    printf 'L %s\n' "${#__loglines[@]}"
+    for r in "${__loglines[@]}"; do printf '%s\n' "$r"; done
 done
 printf 'E %s %s\n' "$CANARY_VAR" "$(cat canary 2>/dev/null)"
 "#;
